@@ -28,7 +28,8 @@ sys.path.insert(0, os.path.dirname(os.path.dirname(os.path.abspath(__file__))))
 from vlib import common
 from vlib.rtc import eng, explore, gen
 
-ALL_SEEDS = ("basic", "refs", "lookup", "summary", "twoway", "twoway_list", "choices", "views")
+ALL_SEEDS = ("basic", "refs", "lookup", "summary", "twoway", "twoway_list", "choices", "views",
+             "refs_into_summary")
 
 # A seed document of our own: two tables with a Ref between them, an extra page with two sections,
 # a summary section, a display column for the Ref, a conditional rule on a column and on a field.
@@ -47,6 +48,27 @@ gen.SEEDS.setdefault("views", [
   [["AddEmptyRule", "B", 0, 7]],
   [["AddEmptyRule", "A", 1, 0]],
 ])
+
+
+# A document whose removals CASCADE: a summary table that exists only through one widget, and a
+# reference column of another table pointing into it with a visible column + display helper column
+# (removing the widget auto-removes the summary table, which converts the reference column, which
+# in turn must drop its display helper).  Table refs: Orders=1, summary=2, Notes=3.
+gen.SEEDS.setdefault("refs_into_summary", [
+  [["AddTable", "Orders", [gen._col("city", "Text"), gen._col("amount", "Int")]],
+   ["BulkAddRecord", "Orders", [None, None, None], {"city": ["Rome", "Oslo", "Rome"], "amount": [1, 2, 3]}]],
+  [["CreateViewSection", 1, 0, "record", [2], None]],
+  [["AddTable", "Notes", [gen._col("about", "Ref:Orders_summary_city"), gen._col("t", "Text")]],
+   ["BulkAddRecord", "Notes", [None, None], {"about": [1, 2], "t": ["x", "y"]}]],
+])
+
+
+def _prime_refs_into_summary(e):
+  """visibleCol + display formula for Notes.about (column refs resolved from the document)."""
+  about = eng.col_ref(e, "Notes", "about")
+  city = eng.col_ref(e, "Orders_summary_city", "city")
+  eng.apply(e, [["UpdateRecord", "_grist_Tables_column", about, {"visibleCol": city}],
+                ["SetDisplayFormula", "Notes", None, about, "$about.city"]])
 
 
 def ref_columns():
@@ -326,6 +348,8 @@ class C09Monitor(explore.Monitor):
              "add_temp": 0, "upsert": 0, "summary": 6, "reverse": 4, "view": 8, "label": 1}
 
   def start(self, e, seed_name):
+    if seed_name == "refs_into_summary":
+      _prime_refs_into_summary(e)
     return {"last_undo": None}
 
   def gen_bundle(self, st, e, g):
